@@ -77,13 +77,14 @@ def printed_json(out):
     return res
 
 
-def design_check(tier, ev):
+def design_check(tier, ev, wd):
     """Exhaustive TLC runs; returns (states, transitions)."""
     states = trans = 0
     clean = [("WideColumnCache", "WideColumnCache_MC.cfg"), ("WideColumnCache", "WideColumnCache_MC2.cfg"),
-             ("KeyOfSetCache", "KeyOfSetCache_MC.cfg"), ("KeyOfSetCache", "KeyOfSetCache_MC2k.cfg")]
+             ("KeyOfSetCache", "KeyOfSetCache_MC.cfg")]
     if tier == "thorough":
-        clean += [("WideColumnCache", "WideColumnCache_MCfull.cfg"), ("KeyOfSetCache", "KeyOfSetCache_MC3.cfg"),
+        clean += [("KeyOfSetCache", "KeyOfSetCache_MC2k.cfg"),
+                  ("WideColumnCache", "WideColumnCache_MCfull.cfg"), ("KeyOfSetCache", "KeyOfSetCache_MC3.cfg"),
                   ("KeyOfSetCache", "KeyOfSetCache_DFlush.cfg"), ("KeyOfSetCache", "KeyOfSetCache_AsIs.cfg"),
                   ("WideColumnCache", "WideColumnCache_MC4K.cfg")]
     runs = []
@@ -97,29 +98,71 @@ def design_check(tier, ev):
                      "depth": r["depth"], "wall_s": round(r["wall_s"], 1), "result": "no error"})
     expect = [("WideColumnCache", "WideColumnCache_MC4.cfg"), ("KeyOfSetCache", "KeyOfSetCache_D5.cfg"),
               ("KeyOfSetCache", "KeyOfSetCache_D6.cfg"), ("KeyOfSetCache", "KeyOfSetCache_DFold.cfg"),
-              ("KeyOfSetCache", "KeyOfSetCache_DSpill.cfg")]
+              ("KeyOfSetCache", "KeyOfSetCache_DSpill.cfg" if tier == "thorough"
+               else derive_cfg(wd, "KeyOfSetCache_DSpill.cfg", MaxBatches=2))]
     for mod, cfg in expect:
         r = tlc_mc(mod, cfg, timeout=600)
         if "ReadYourWrites" not in r["invariant_violated"]:
             raise vp.ToolError(f"design check {cfg}: expected a ReadYourWrites counterexample with the defect as coded\n{r['out'][-2500:]}")
         states += r["distinct"]
         trans += r["generated"]
-        runs.append({"cfg": cfg, "distinct": r["distinct"], "generated": r["generated"],
+        runs.append({"cfg": os.path.basename(cfg), "distinct": r["distinct"], "generated": r["generated"],
                      "wall_s": round(r["wall_s"], 1), "result": "ReadYourWrites violated (expected)"})
     ev["design_runs"] = runs
     return states, trans
+
+
+def derive_cfg(wd, base, **consts):
+    """Copy specs/<base> into the work dir with some constants replaced."""
+    s = open(os.path.join(vp.SPECS, base)).read()
+    for k, v in consts.items():
+        s, n = re.subn(r"(?m)^  %s = .*$" % k, "  %s = %s" % (k, v), s)
+        if n != 1:
+            raise vp.ToolError(f"cannot set {k} in {base}")
+    path = os.path.join(wd, base)
+    with open(path, "w") as f:
+        f.write(s)
+    return path
+
+
+FILL_LO, FILL_N = 200, 1022   # filler elements that scale the model threshold 2 to the real 1024
+
+
+def scale_steps(steps, keys):
+    """Prefix a set behaviour with a committed bulk insert of FILL_N fillers per key
+    (batch ids of the behaviour move up by one)."""
+    out = [{"a": "new", "c": 1, "b": 0}]
+    for k in keys:
+        out.append({"a": "insr", "c": 1, "b": 0, "k": k, "v": FILL_LO, "hi": FILL_LO + FILL_N})
+    out += [{"a": "submit", "c": 1, "b": 0}, {"a": "commit", "b": 0}, {"a": "evict"}]
+    for s in steps:
+        s = dict(s)
+        if "b" in s:
+            s["b"] += 1
+        out.append(s)
+    return out
 
 
 def gen_behaviours(wd, seed, tier, ev):
     """TLC as behaviour generator. Returns list of behaviours (dicts)."""
     behs = []
     rng = random.Random(seed)
-    ncex = 60 if tier == "quick" else 400
-    nsim = 150 if tier == "quick" else 1500
+    q = tier == "quick"
+    ncex = 40 if q else 400
+    nsim = 100 if q else 1500
     cov = {}
-    for mod, cexcfg, gencfg in (("WideColumnCache", "WideColumnCache_Cex.cfg", "WideColumnCache_Gen.cfg"),
-                                ("KeyOfSetCache", "KeyOfSetCache_Cex.cfg", "KeyOfSetCache_Gen.cfg")):
-        r = vp.tlc(mod, cfg=cexcfg, workers=4, timeout=900, extra=["-continue"], check_ok=False, xmx="6g")
+    fams = [("WideColumnCache", derive_cfg(wd, "WideColumnCache_Cex.cfg", **({"MaxOps": 2} if q else {})),
+             "WideColumnCache_Gen.cfg", False),
+            ("KeyOfSetCache", derive_cfg(wd, "KeyOfSetCache_Cex.cfg", **({"MaxBatches": 2} if q else {})),
+             "KeyOfSetCache_Gen.cfg", False),
+            ("KeyOfSetCache", derive_cfg(wd, "KeyOfSetCache_CexL.cfg", **({"MaxOps": 5} if q else {"MaxOps": 6})),
+             "KeyOfSetCache_GenL.cfg", True)]
+    for mod, cexcfg, gencfg, scaled in fams:
+        if scaled:
+            ncex_f, nsim_f = (20, 30) if q else (150, 300)
+        else:
+            ncex_f, nsim_f = ncex, nsim
+        r = vp.tlc(mod, cfg=cexcfg, workers=4, timeout=1500, extra=["-continue"], check_ok=False, xmx="6g")
         cex = [b for b in printed_json(r["out"]) if "cex" in b]
         if not cex:
             raise vp.ToolError(f"{cexcfg}: the as-coded model printed no counterexample\n{r['out'][-2000:]}")
@@ -142,21 +185,23 @@ def gen_behaviours(wd, seed, tier, ev):
             chosen += lst[:3]
         rest = [b for b in reps if b not in chosen]
         rng.shuffle(rest)
-        chosen += rest[:max(0, ncex - len(chosen))]
+        chosen += rest[:max(0, ncex_f - len(chosen))]
         for b in chosen:
             b["origin"] = "cex"
+            b["scaled"] = scaled
         behs += chosen
-        cov[cexcfg] = {"counterexamples": len(cex), "classes": len(classes), "replayed": len(chosen),
+        cov[os.path.basename(cexcfg) + ("" if not scaled else "")] = {"counterexamples": len(cex), "classes": len(classes), "replayed": len(chosen),
                        "distinct": r["distinct"], "generated": r["generated"]}
         ev["states"] = ev.get("states", 0) + r["distinct"]
         ev["transitions"] = ev.get("transitions", 0) + r["generated"]
         g = vp.tlc(mod, cfg=gencfg, workers=1, timeout=900, check_ok=False,
-                   extra=["-simulate", f"num={nsim}", "-depth", "250", "-seed", str(seed)])
+                   extra=["-simulate", f"num={nsim_f}", "-depth", "250", "-seed", str(seed)])
         sim = [b for b in printed_json(g["out"]) if "cex" not in b]
         if not sim:
             raise vp.ToolError(f"{gencfg}: generator printed no behaviour\n{g['out'][-2000:]}")
         for b in sim:
             b["origin"] = "sim"
+            b["scaled"] = scaled
         behs += sim
         cov[gencfg] = {"walks": len(sim)}
     ev["generator"] = cov
@@ -168,8 +213,11 @@ def gen_behaviours(wd, seed, tier, ev):
             m = "single" if i % 2 == 0 else "dynamic"
         else:
             m = "set"
-        out.append({"map": m, "cap": 1, "clients": b.get("clients", 2), "steps": steps,
-                    "origin": b["origin"], "name": f"{b['origin']}-{i}"})
+        if b.get("scaled"):
+            keys = sorted({s["k"] for s in steps if "k" in s})
+            steps = scale_steps(steps, keys)
+        out.append({"map": m, "cap": 1, "clients": max(2, b.get("clients", 2)), "steps": steps,
+                    "origin": b["origin"], "scaled": bool(b.get("scaled")), "name": f"{b['origin']}-{i}"})
     path = os.path.join(wd, "behaviours.ndjson")
     with open(path, "w") as f:
         for b in out:
@@ -213,6 +261,12 @@ def split_runs(events):
         if e.get("e") == "run":
             cur = [e]
         elif cur is not None:
+            if e.get("e") in ("panic", "dead") and not any(x.get("e") == "cut" for x in cur):
+                # a panic in the code under test (data, not a C09 verdict) or a dead
+                # background writer: judge the history up to this point only
+                cur.append({"e": "cut", "why": e})
+            if any(x.get("e") == "cut" for x in cur) and e.get("e") != "reset":
+                continue
             cur.append(e)
             if e.get("e") == "reset":
                 runs.append(cur)
@@ -336,6 +390,15 @@ def verdict_of(wd, name, events, verdict, ev, behaviours=None, seed=0):
     return len(runs), len(failing)
 
 
+def short(v, n=12):
+    """Shorten long lists inside a JSON-like value (evidence samples)."""
+    if isinstance(v, list):
+        return [short(x, n) for x in v[:n]] + ([f"... {len(v) - n} more"] if len(v) > n else [])
+    if isinstance(v, dict):
+        return {k: short(x, n) for k, x in v.items()}
+    return v
+
+
 def drift_of(events, ev):
     """Compare the replayed results with the model's as-is prediction (never a verdict)."""
     n = d = 0
@@ -346,16 +409,18 @@ def drift_of(events, ev):
         st = e["step"]
         if st.get("a") != "res" or not isinstance(e.get("got"), dict) or "r" not in e["got"]:
             continue
+        if any(t[1] == "SPILL" for t in st.get("tags", []) if isinstance(t, list)):
+            continue  # the cut Spilled iteration has several possible results
         got = e["got"]["r"]
         if isinstance(got, list):
-            same = sorted(got) == sorted(st["asis"])
+            same = sorted(x for x in got if x < FILL_LO) == sorted(st["asis"])
         else:
             same = (got == -1 and st["asis"] == 0) or got == st["asis"]
         same = same and e["got"].get("db") == st.get("ndb")
         n += 1
         if not same:
             d += 1
-            first = first or {"step": st, "got": e["got"]}
+            first = first or short({"step": st, "got": e["got"]})
     ev["replay_reads_compared"] = ev.get("replay_reads_compared", 0) + n
     ev["model_drift"] = ev.get("model_drift", 0) + d
     if first and "model_drift_first" not in ev:
@@ -384,16 +449,25 @@ def run(tier, seed):
     bd = vp.build()
     verdict = vp.Verdict(PID)
     ev = new_ev()
-    states, trans = design_check(tier, ev)
+    phase = {}
+    tp0 = time.time()
+    states, trans = design_check(tier, ev, wd)
+    phase["design_check"] = round(time.time() - tp0, 1)
+    tp0 = time.time()
     ev["states"] = states
     ev["transitions"] = trans
     # S->I
     path, behs = gen_behaviours(wd, seed, tier, ev)
+    phase["generate"] = round(time.time() - tp0, 1)
+    tp0 = time.time()
     rp = os.path.join(wd, "replay.ndjson")
     panics = harness(bd, rp, mode="replay", **{"in": path})
     events = load_trace(rp)
     drift_of(events, ev)
+    phase["replay"] = round(time.time() - tp0, 1)
+    tp0 = time.time()
     nruns, nfail = verdict_of(wd, "replay", events, verdict, ev, behaviours=behs, seed=seed)
+    phase["replay_verdict"] = round(time.time() - tp0, 1)
     ev["replayed_behaviours"] = nruns
     ev["replayed_failing"] = nfail
     aborted = [e for e in events if e.get("e") == "reset" and e.get("aborted")]
@@ -402,13 +476,15 @@ def run(tier, seed):
     q = tier == "quick"
     plans = [("seq", dict(mode="seq", seed=seed, runs=60 if q else 600, steps=60)),
              ("seqbig", dict(mode="seq", seed=seed + 1000, runs=6 if q else 40, steps=50, map="set", big=True)),
-             ("par", dict(mode="par", seed=seed + 2000, runs=40 if q else 500, ops=10, chaos=300))]
+             ("par", dict(mode="par", seed=seed + 2000, runs=30 if q else 400, ops=8, chaos=300, maxw=2, maxr=2))]
     total_runs = nruns
     for name, kw in plans:
+        tp0 = time.time()
         tp = os.path.join(wd, name + ".ndjson")
         panics += harness(bd, tp, **kw)
         events = load_trace(tp)
         n, f = verdict_of(wd, name, events, verdict, ev, seed=seed)
+        phase[name] = round(time.time() - tp0, 1)
         ev[name + "_runs"] = n
         ev[name + "_failing"] = f
         total_runs += n
@@ -416,8 +492,10 @@ def run(tier, seed):
         if ab:
             raise vp.ToolError(f"{name}: operation hangs / run aborted: {ab[:2]}")
     ev["panics_in_code_under_test"] = panics
+    ev["phase_wall_s"] = phase
+    vp.log(f"[C09] phases {phase}")
     rc = verdict.finish()
-    samples = [{"behaviour_replayed": behs[0]}, {"behaviour_replayed": behs[-1]}] + ev.pop("known_samples")
+    samples = [{"behaviour_replayed": short(behs[0], 40)}, {"behaviour_replayed": short(behs[-1], 40)}] + short(ev.pop("known_samples"))
     cov = {"states": ev.pop("states") + ev.get("judge_states", 0) + ev["classification"].get("m_states", 0),
            "transitions": ev.pop("transitions"),
            "traces_validated_against_impl": total_runs,
